@@ -32,8 +32,8 @@ PROPS["C06"] = dict(
                "ci_zero_iff_fold_eq", "ci_preorder", "ops_agree", "operators_meaning", "compare_n_eq_take", "hash_congr", "hash_i_congr",
                "case_map_only_ascii", "reads_only_common_prefix", "huge_length_difference", "narrowed_difference_was_wrong",
                "narrowed_difference_ok_when_small"),
-    rule="exhaustive: all ordered pairs of byte strings over {00,41,61,5A,7A,7F,80,FF} up to length 3 (quick: one side up to 2) and over {00,41,61,80,FF} up to "
-         "length 4 (thorough) x prefix limits n in {none,0..5,SIZE_MAX} through every ST::string overload (compare / compare_n / compare_i / compare_ni with "
+    rule="exhaustive: all ordered pairs of byte strings over {00,41,61,5A,7A,7F,80,FF} up to length 3 and (thorough) over {00,41,61,80,FF} up to "
+         "length 4 x prefix limits n in {none,0..5,SIZE_MAX} through every ST::string overload (compare / compare_n / compare_i / compare_ni with "
          "string, const char*, const char8_t*, null; ==, !=, <, less_i, equal_i, hash/hash_i equality), the same over the fold edges {@ A Z [ ` a z {}; all triples "
          "up to length 2; buffers of char/char16_t/char32_t/wchar_t over critical units incl. 7FFF/8000/FFFF and 7FFFFFFF/80000000/FFFFFFFF; length-only cases "
          "{0,1,2^31-1,2^31,2^31+1,2^32,2^32+1,2^63,SIZE_MAX-1,SIZE_MAX}^2 x n through the static (ptr,len) compare of all four element types (made only when at "
